@@ -347,8 +347,10 @@ Inductive event :=
 | EFail (p : pid)                        (* worker.rs:577 notify_result Err arm (the repair only wakes
                                             an awaiter that no longer awaits p) *)
 | EActive                                (* mark_active, executor.rs:871 *)
-| ELocal (p : pid) (r : option value).   (* awaited process finishes on the same executor:
+| ELocal (p : pid) (r : option value)    (* awaited process finishes on the same executor:
                                             Executor::step awaiters loop, executor.rs:1245-1280 *)
+| ETick (now : Z).                       (* an Executor::step that runs ANOTHER process: only its
+                                            check_expired_timeouts(now) concerns this one *)
 
 Definition notify_result (p : pid) (v : value) (st : proc) : proc :=
   wake (if fix45 && negb (aw_has p (p_awaiting st)) then st
@@ -368,6 +370,7 @@ Definition apply_event (ev : event) (st : proc) : outcome proc :=
         | None => Val (set_error st (PAwaited p))
         end
       else Val st
+  | ETick now => Val (check_expired now st)
   end.
 
 Fixpoint run (evs : list event) (st : proc) : outcome proc :=
